@@ -1,13 +1,40 @@
 """C20 — metric scopes: op sequences (incr/value/merge/reset/gob) against BS.Metrics."""
 PID = "C20"
-RULE = ("random op sequences new/incr/value/merge/reset/resetnil/gob over up to 6 scopes and 6 registered counters, "
+RULE = ("(C20e2e) counting programs run end to end on both executors, their results consumed by later runs with discards in "
+        "between: the counters of every result equal the increments of one execution per task; (C20) random op sequences new/incr/value/merge/reset/resetnil/gob over up to 6 scopes and 6 registered counters, "
         "including merges between scopes that share instances after Reset(u) and self-merges; observation = every op's "
         "result and the final value of every counter in every scope; non-trivial = contains merge, reset or gob")
 TRUST = ["encoding/gob transports []interface{} of registered *counterValue unchanged"]
 ASSUMPTIONS = ["int64 counters do not overflow", "single goroutine (the atomics are not exercised concurrently here; see C19)"]
 
 
-def gen(r, tier):
+SUBS = ["C20", "C20e2e"]
+PARALLEL = {"C20e2e": 8}
+
+
+def gen(r, tier, sub):
+    if sub == "C20e2e":
+        # end to end: counting programs, their results consumed by later runs, with discards in between
+        # (recomputed tasks must report their increments once); judged by the C12 oracle (rows and counters)
+        n = 60 if tier == "quick" else 1500
+        cfgs = ["local", "bm M2 P2", "bm M1 P3", "bm M4 P4 MC"]
+        for i in range(n):
+            nsh = r.rng(1, 3)
+            rows = " ".join("%d:%d" % (r.below(6), r.rng(0, 20)) for _ in range(r.rng(1, 12)))
+            ops = ["run N0=const %d %s ; N1=count N0 %d ; OUT N1" % (nsh, rows, r.below(3))]
+            for _ in range(r.rng(1, 5)):
+                k = r.below(100)
+                if k < 40:
+                    ops.append("discard %d" % r.below(sum(1 for o in ops if o.startswith("run"))))
+                elif k < 55:
+                    ops.append("scan %d" % r.below(sum(1 for o in ops if o.startswith("run"))))
+                else:
+                    src = r.below(sum(1 for o in ops if o.startswith("run")))
+                    body = r.choice(["N0=map R%d id ; OUT N0", "N0=reduce R%d add ; OUT N0", "N0=reshuffle R%d ; N1=count N0 %d ; OUT N1" ,
+                                     "N0=filter R%d vodd ; N1=count N0 %d ; OUT N1"])
+                    ops.append("run " + (body % ((src, r.below(3)) if body.count("%d") == 2 else (src,))))
+            yield "%s ;; %s" % (r.choice(cfgs), " ;; ".join(ops))
+        return
     n = 3000 if tier == "quick" else 60000
     for _ in range(n):
         ops = ["new"]
@@ -35,7 +62,7 @@ def gen(r, tier):
 
 
 def nontrivial(case, obs):
-    return any(w in case for w in ("merge", "reset", "gob"))
+    return any(w in case for w in ("merge", "reset", "gob", "discard"))
 
 
 def shrink_candidates(case):
